@@ -99,6 +99,9 @@ func usedAndReserved(dump []plugin.IPAMRec, k KeyParts, sized bool) (used int, r
 //   - Filter of a deployment / pool pod with a reserving policy that owns nothing, while its app holds addresses in
 //     reserve and has quota left, must take one of THEM - a most recently updated one routable from the chosen subnet
 //   - and must never take a free address, also when the store update fails (`fresh-ip-while-reserved-exists`);
+//   - Filter of such a pod while its app already uses its whole quota (spec.replicas resp. Pool.size, nothing added - no
+//     surge allowance) must refuse ("wait for releasing"): otherwise the replacement pod of a rolling update is bound
+//     with a fresh address before the old pod's address reaches the reserve (same signature);
 //   - a successful Bind of an identity that owned an address must write exactly one of the owned addresses into the
 //     binding annotation (`rebound-with-different-ip`; `fresh-ip-while-reserved-exists` if the address was free before).
 func MonitorC02(w *plugin.World, step int) []hx.Violation {
@@ -187,7 +190,30 @@ func MonitorC02(w *plugin.World, step int) []hx.Violation {
 		if k.Typ == "dp" && pol != 0 && len(owned) == 0 && !hasRanges(pod) {
 			quota, sized := appQuota(w, k)
 			used, reserved := usedAndReserved(prev.dump, k, sized)
-			if len(reserved) == 0 || used >= quota {
+			if used >= quota {
+				// the quota gate: the app already uses as many addresses as it has replicas (resp. its pool has size) - the
+				// quota is spec.replicas / Pool.size and nothing else. The pod must wait for an address to come back
+				// ("wait for releasing"); passing it on lets bind hand a fresh address while the old pod's address is about
+				// to fall into the app's reserve.
+				w.Mon["c02-hit:dp-quota-gate:"+map[bool]string{true: "pool", false: "app"}[k.Pool != ""]+":"+polName(pol)] = true
+				if len(reserved) > 0 {
+					w.Mon["c02-hit:dp-quota-gate-with-reserve"] = true
+				}
+				if okRes {
+					viol("fresh-ip-while-reserved-exists", fmt.Sprintf("%q: its app uses %d addresses, quota %d (sized pool: %v), %d in reserve; the replacement pod must wait for a release but filter answered %s",
+						key, used, quota, sized, len(reserved), w.LastOp.Result))
+				}
+				if fr := freshFor(); len(fr) > 0 {
+					viol("fresh-ip-while-reserved-exists", fmt.Sprintf("%q: its app uses %d addresses, quota %d; filter allocated %v", key, used, quota, ipStrs(fr)))
+				}
+				for _, r := range reserved {
+					if a := after[r.IP]; a.Key == key {
+						viol("fresh-ip-while-reserved-exists", fmt.Sprintf("%q: its app uses %d addresses, quota %d; filter re-keyed the reserved %s", key, used, quota, plugin.IPStr(r.IP)))
+					}
+				}
+				return out
+			}
+			if len(reserved) == 0 {
 				return out
 			}
 			w.Mon["c02-hit:dp-replacement:"+map[bool]string{true: "pool", false: "app"}[k.Pool != ""]+":"+polName(pol)] = true
